@@ -51,6 +51,7 @@ type FuncContract struct {
 	Serves   []string
 	Requires []*Clause
 	Ensures  []*Clause
+	Invokes  *InvokeSpec // higher-order: the callee calls one of its function arguments at most once
 	Assumes  []*Clause // postconditions assumed at call sites but not proved of the body (explicitly trusted part)
 	Modifies []string
 	Safe     map[string]bool
@@ -60,6 +61,14 @@ type FuncContract struct {
 	File     string
 	Line     int
 	Used     bool
+}
+
+// InvokeSpec: `invokes fn(x) requires <cond over x>`: the callee either does not call fn, or calls it exactly once with
+// an argument satisfying cond and returns fn's results as its own; the ghost boolean `invoked` tells which.
+type InvokeSpec struct {
+	Param  string
+	Arg    string
+	Clause *Clause
 }
 
 type GhostDecl struct {
@@ -415,6 +424,12 @@ func (cs *Contracts) loadContractFile(path, pkgPath string, imports map[string]s
 				}
 			}
 			lastClause = nil
+		case cur != nil && head == "invokes":
+			m := regexp.MustCompile(`^invokes\s+(\w+)\((\w+)\)\s+requires\s+(.*)$`).FindStringSubmatch(l)
+			if m == nil {
+				return fmt.Errorf("%s:%d: expected 'invokes fn(x) requires cond'", path, i+1)
+			}
+			cur.Invokes = &InvokeSpec{Param: m[1], Arg: m[2], Clause: mk("requires", "", m[3])}
 		case cur != nil && head == "abstract":
 			cur.Abstract = append(cur.Abstract, strings.TrimSpace(l[len("abstract"):]))
 			lastClause = nil
@@ -563,6 +578,9 @@ func (cs *Contracts) parseAll() error {
 		}
 		for _, c := range fc.Assumes {
 			try(c)
+		}
+		if fc.Invokes != nil {
+			try(fc.Invokes.Clause)
 		}
 		for _, l := range fc.Loops {
 			for _, c := range l.Invariants {
